@@ -37,6 +37,7 @@ COMPILER_REPLAYS = {
     "u_gensym": ["replay/c19/gensym_capture.sh"],
     "u_varname": ["replay/c19/shared_variant.sh"],
     "u_gopkgs": ["replay/c02/unused_import.sh"],
+    "u_rttypes": ["replay/c02/undefined_tuple.sh"],
     "u_patlit": ["replay/c03/run.sh"],
     "u_annot": ["replay/c03/annotations.sh"],
     "u_binop": ["replay/c09/short_circuit.sh"],
